@@ -155,6 +155,18 @@ CHECKS = {
               "stability with the real codec; the flavour object is created before the other flavours. Open known finding: vanilla meas_basis/mov opcode clash (C01)."),
         technique="contract-based deductive verification: segment-string symbolic execution of the real printers and the real text parser (decisions on literals, boundaries and signs only), z3 LIA; str/int builtin lemma assumed",
         design_ref="5.C17"),
+    "C18": dict(
+        category="other",
+        text=("Safety under statement atomicity, NOT a proof of the full statement. (1) Rely/guarantee contracts per atomic step of the real hub code (steps extracted mechanically from "
+              "/repo on every run; a `with self._lock` block or a statement is one step), discharged by pyvc/z3 for ALL queue contents and arbitrary interference by other threads "
+              "between steps: recv pops exactly the head of its own queue and returns it, a non-blocking receive on an empty queue raises and changes nothing, send appends at the "
+              "end of the receiver's queue (or calls its callback exactly once), connect publishes the key only after the callbacks and returns only if the remote is or was open, "
+              "disconnect removes only its own key / its remote's marker; every step touches nothing outside its guarantee (no queue object replaced or removed). Socket-level wrappers "
+              "forward message, block and timeout to the hub. (2) BOUNDED stand-in: all schedules with <= 2 (two threads) / 1 (four threads) preemptions in the quick tier, 4 / 2 in "
+              "the thorough tier, for ten scenarios (two/three endpoints, two socket ids, plain/structured/callback/non-blocking delivery, connect/disconnect orders); a failing "
+              "schedule is replayed. Liveness and sub-statement preemption are not claimed. One defect found and fixed (callbacks registered after the key was published)."),
+        technique="contract-based deductive verification: rely/guarantee (Owicki-Gries) obligations per atomic step of the real hub code from arbitrary symbolic hub states (pyvc + z3); bounded stand-in: exhaustive preemption-bounded schedule exploration over mechanically extracted atomic steps",
+        design_ref="5.C18"),
     "C19": dict(
         category="proof",
         text=("Loop-invariant proof of get_angle_spec_from_float over the reals for every angle and every tolerance in [1e-9, 1]: the real loop "
